@@ -313,7 +313,10 @@ def check_auth(request, response, realm, users, encrypt=None):
         # make sure the provided credentials are correctly set
         ah = _httpauth.parseAuthorization(request.headers.get('Authorization'))
         if ah is None:
-            return httperror(request, response, 400)
+            # unparsable credentials never authenticate; callers test the
+            # return value for truth, so it must not be an error object
+            request.login = False
+            return False
 
         if not encrypt:
             encrypt = _httpauth.DIGEST_AUTH_ENCODERS[_httpauth.MD5]
@@ -337,6 +340,11 @@ def check_auth(request, response, realm, users, encrypt=None):
 
             # fetch the user password
             password = users.get(ah['username'], None)
+
+        if password is None:
+            # no entry for this user: there is nothing to verify against
+            request.login = False
+            return False
 
         # validate the Authorization by re-computing it here
         # and compare it with what the user-agent provided
